@@ -32,6 +32,9 @@ pub struct SPlace {
     /// empty = no time restriction
     pub tws: Vec<(i64, i64)>,
     pub tag: Option<String>,
+    /// shared reload resource (reload places only)
+    #[serde(default)]
+    pub resource: Option<String>,
 }
 
 #[derive(Serialize, Deserialize, Clone, Debug, Default)]
@@ -132,6 +135,9 @@ pub struct SProblem {
     /// `plan.clustering` (raw JSON) or nothing
     #[serde(default)]
     pub clustering: Option<Value>,
+    /// shared reload resources: (id, capacity)
+    #[serde(default)]
+    pub resources: Vec<(String, Vec<i64>)>,
 }
 
 /// seconds since epoch -> RFC3339 (January 1970 only)
@@ -162,6 +168,9 @@ fn place_json(p: &SPlace) -> Value {
     }
     if let Some(tag) = &p.tag {
         v["tag"] = json!(tag);
+    }
+    if let Some(resource) = &p.resource {
+        v["resourceId"] = json!(resource);
     }
     v
 }
@@ -332,6 +341,10 @@ impl SProblem {
             "plan": plan,
             "fleet": {"vehicles": vehicles, "profiles": self.profiles.iter().map(|p| json!({"name": p.name})).collect::<Vec<_>>()},
         });
+        if !self.resources.is_empty() {
+            problem["fleet"]["resources"] =
+                json!(self.resources.iter().map(|(id, cap)| json!({"type": "reload", "id": id, "capacity": cap})).collect::<Vec<_>>());
+        }
         if !self.objectives.is_empty() {
             problem["objectives"] = json!(self.objectives);
         }
@@ -384,6 +397,8 @@ pub struct GenCfg {
     pub multi_shift: bool,
     pub scale: bool,
     pub alt_places: bool,
+    /// reloads draw on a shared resource of limited capacity
+    pub shared_resources: bool,
 }
 
 impl GenCfg {
@@ -411,6 +426,7 @@ impl GenCfg {
             multi_shift: false,
             scale: false,
             alt_places: false,
+            shared_resources: false,
         }
     }
 
@@ -432,6 +448,7 @@ impl GenCfg {
         c.multi_shift = rng.chance(1, 6);
         c.scale = rng.chance(1, 5);
         c.alt_places = rng.chance(1, 4);
+        c.shared_resources = c.reloads && rng.chance(1, 2);
         // multi-task jobs and alternative places are only identifiable in a solution through tags
         c.tags = c.tags || c.multi_jobs || c.alt_places;
         c
@@ -526,7 +543,7 @@ pub fn gen_problem(rng: &mut Rng, cfg: &GenCfg) -> SProblem {
     let gen_place = |rng: &mut Rng, tag: Option<String>| -> SPlace {
         // one place in ten lies at a depot: such a job can be served inside the departure (or arrival) stop
         let lo = if rng.chance(1, 10) { 0 } else { n_depots.min(n_locs - 1) };
-        SPlace { loc: rng.usize(lo, n_locs - 1), dur: rng.range(0, 30), tws: gen_tws(rng), tag }
+        SPlace { loc: rng.usize(lo, n_locs - 1), dur: rng.range(0, 30), tws: gen_tws(rng), tag, resource: None }
     };
     let gen_demand = |rng: &mut Rng| -> Vec<i64> { (0..dims).map(|_| rng.range(0, 4)).collect() };
 
@@ -647,7 +664,13 @@ pub fn gen_problem(rng: &mut Rng, cfg: &GenCfg) -> SProblem {
             let mut reloads = vec![];
             if cfg.reloads && rng.chance(2, 3) {
                 for _ in 0..rng.usize(1, 2) {
-                    reloads.push(SPlace { loc: depot, dur: rng.range(0, 20), tws: vec![], tag: cfg.tags.then(|| "rl".to_string()) });
+                    reloads.push(SPlace {
+                        loc: depot,
+                        dur: rng.range(0, 20),
+                        tws: vec![],
+                        tag: cfg.tags.then(|| "rl".to_string()),
+                        resource: (cfg.shared_resources && rng.chance(2, 3)).then(|| "res0".to_string()),
+                    });
                 }
             }
             shifts.push(SShift { start_earliest, start_latest, start_loc: depot, end, breaks, reloads });
@@ -712,7 +735,14 @@ pub fn gen_problem(rng: &mut Rng, cfg: &GenCfg) -> SProblem {
         }
     }
 
-    SProblem { n: n_locs, profiles, jobs, vehicles, relations: vec![], objectives: vec![], clustering: None }
+    // a shared reload resource holds between one and three vehicle loads
+    let resources = if cfg.shared_resources && vehicles.iter().any(|v| v.shifts.iter().any(|s| s.reloads.iter().any(|r| r.resource.is_some()))) {
+        let cap: Vec<i64> = vehicles[0].capacity.iter().map(|c| c * rng.range(1, 3)).collect();
+        vec![("res0".to_string(), cap)]
+    } else {
+        vec![]
+    };
+    SProblem { n: n_locs, profiles, jobs, vehicles, relations: vec![], objectives: vec![], clustering: None, resources }
 }
 
 // ---------------------------------------------------------------------------------------------------
